@@ -51,10 +51,10 @@ PROPS['C18'] = dict(
     unchecked=['qhashmd5_file', 'messages longer than 130 bytes for Murmur value equality and MD5 padding', 'nbytes >= 2^32 (qhashmd5 truncates to unsigned int)'],
 )
 PROPS['C19'] = dict(
-    technique='CBMC bounded contract checks: every string routine against an independent executable reference on all buffers of a constant size over all 256 byte values, exactly-sized buffers, loops fully unwound with unwinding assertions',
-    text='qstrtrim/_head/_tail, qstrupper/lower, qstrrev, qstrunchar, qstrcpy/qstrncpy (every size 0..n+2), qstrgets, qstrreplace (4 modes), qstrtok, qstrdup_between and qmemdup are compared with independently written reference functions for EVERY buffer content of the stated size (all byte values, hence every shorter string, blanks, delimiters, quotes, bytes >= 0x80) with all bounds/pointer obligations on exactly-sized buffers.',
+    technique='CBMC contract checks on the real qstring.c: UNBOUNDED predicate contracts with woven loop contracts (invariant + decreases), ghost index and strlen/memmove contract stubs for qstrupper/qstrlower/qstrtrim/qstrtrim_head/qstrtrim_tail/qstrrev/qstrunchar/qstrcpy/qstrncpy (strings of any length); bounded stand-in (every buffer of a constant size against an executable reference, loops fully unwound) for qstrreplace/qstrtok/qstrgets/qstrdup_between/qmemdup and as a second opinion for the others',
+    text='PROOF (any length, arbitrary bytes; groups str_upper_lower, str_trim, str_trim_head, str_trim_tail, str_rev, str_unchar, str_copy): the in-place routines are verified against their documented function with one arbitrary ghost position standing for every character - exactly a-z/A-Z converted, exactly the maximal prefix/suffix of blank/TAB/CR/LF removed and nothing else, character k moved to len-1-k, exactly the matching first/last character stripped or refusal with the string untouched, copy always terminated inside an exactly size-byte destination with min(n,size-1) leading bytes; every loop closed by an inductive invariant and a decreasing measure, no write in front of or behind the buffer. BOUNDED: qstrtrim/_head/_tail, qstrupper/lower, qstrrev, qstrunchar, qstrcpy/qstrncpy (every size 0..n+2), qstrgets, qstrreplace (4 modes), qstrtok, qstrdup_between and qmemdup are compared with independently written reference functions for EVERY buffer content of the stated size (all byte values, hence every shorter string, blanks, delimiters, quotes, bytes >= 0x80) with all bounds/pointer obligations on exactly-sized buffers.',
     design_ref='DESIGN.md section 3 C19',
-    note='Bounded stand-in throughout (strings <= 6/8 bytes; replace: source <= 3/5, token <= 2, word <= 2); labelled bounded, not counted as proved. Trailing empty field after a final delimiter is not returned by qstrtok (code behaviour, taken as the documented one). qstrtokenizer, qstrdupf/qstrcatf (vsnprintf) are outside the claim. The string under test sits one byte into its allocation because CBMC cannot represent the one-before-start pointer the backward scans form without dereferencing; the guard byte is arbitrary and asserted unchanged.',
+    note='Unbounded for the seven routines named above (strlen and memmove enter through assumed contract stubs: strlen returns the terminator index of the string under test, memmove obligations = regions valid, effect = exact copy at an arbitrary ghost offset). Bounded stand-in for the rest (strings <= 6/8 bytes; replace: source <= 3/5, token <= 2, word <= 2); labelled bounded, not counted as proved. Trailing empty field after a final delimiter is not returned by qstrtok (code behaviour, taken as the documented one). qstrtokenizer, qstrdupf/qstrcatf (vsnprintf) are outside the claim. The string under test sits one byte into its allocation because CBMC cannot represent the one-before-start pointer the backward scans form without dereferencing; the guard byte is arbitrary and asserted unchanged.',
     trusted_base=COMMON_TRUST + ['strlen/memmove/strcpy/strncmp/strncpy: CBMC library models; strstr: executable model in the harness'],
     unchecked=['strings longer than the stated bounds', 'qstrtokenizer, qstrdupf, qstrcatf, qstr_comma_number, qstrunique'],
 )
@@ -115,18 +115,18 @@ PROPS['C05'] = dict(
 TREE_BOUND = 'every LLRB 2-3-4 tree of height <= 3 (<= 7 keys; all 18 coloured shapes enumerated as instances) with one-byte keys under a rank comparator, values 0..2 bytes; put/remove: every (tree, operation key) pair with canonical keys'
 TREE_TRUST = COMMON_TRUST + [PTHREAD_TRUST, 'user comparator = rank of the first key byte (any total order on a finite key set is such a rank); the default qtreetbl_byte_cmp is not separately proved to be a total order', 'put/remove instances use canonical keys 1,3,5,.. and a constant operation key: sound because the tree code inspects keys only through tbl->compare (symmetry argument, not mechanised)']
 PROPS['C01'] = dict(
-    technique='CBMC bounded contract checks on closed trees: every LLRB tree of height <= 3 enumerated by shape and colouring, every operation key, post-state walked through the real pointers by independent spec functions (probe key for the untouched part of the map)',
-    text='For every valid tree of height <= 3 and every operation key (present, between keys, below the minimum, above the maximum) putobj/removeobj/getobj/size/find_min/find_max/clear are shown to realise the ideal sorted-map transition: value and length most recently put, replacement without changing the count, removal of exactly that key (absent key: ENOENT and unchanged key set), every other key untouched (symbolic probe key), exact size, least/greatest key. The post-state satisfies the same invariant the pre-state was drawn from, so histories are covered by induction over operations within the height bound.',
+    technique='window induction for the recursive insertion (UNBOUNDED in tree size): the real put_obj is verified on a window of real nodes over summarised subtrees with its recursive self-call replaced by the induction hypothesis (contract stub), postcondition by kind of argument, ghost probe key for the map view; qtreetbl_putobj verified against that contract; for remove/get/min/max/clear CBMC bounded contract checks on closed trees: every LLRB tree of height <= 3 enumerated by shape and colouring, every operation key, post-state walked through the real pointers by independent spec functions (probe key for the untouched part of the map)',
+    text='PROOF for put (groups tree_win_step/null/putobj_top): for a tree of ANY size putobj stores a private copy of key and value, replaces the value of an equal key without changing the count, leaves membership of every other key (probe key) unchanged, keeps size == number of keys, also when any allocation inside fails (then: ENOMEM, nothing added). BOUNDED for the rest: For every valid tree of height <= 3 and every operation key (present, between keys, below the minimum, above the maximum) putobj/removeobj/getobj/size/find_min/find_max/clear are shown to realise the ideal sorted-map transition: value and length most recently put, replacement without changing the count, removal of exactly that key (absent key: ENOENT and unchanged key set), every other key untouched (symbolic probe key), exact size, least/greatest key. The post-state satisfies the same invariant the pre-state was drawn from, so histories are covered by induction over operations within the height bound.',
     design_ref='DESIGN.md section 3 C01',
-    note='Bounded stand-in in tree height (<= 3 before the operation); the window-induction proof of put_obj planned in DESIGN.md 1.4 is not part of this commit. String-key entry points (put/get/remove = obj variants with strlen+1) and putstrf are outside the claim.',
+    note='put: unbounded (structural induction over the subtree is the meta-argument, the step is machine-checked; one-byte keys under a rank comparator, 2-byte values). remove/get/find_min/find_max/clear: bounded stand-in in tree height (<= 3 before the operation). String-key entry points (put/get/remove = obj variants with strlen+1) and putstrf are outside the claim.',
     trusted_base=TREE_TRUST,
     unchecked=['trees higher than 3', 'qtreetbl_put/get/remove string wrappers, putstrf, debug'],
 )
 PROPS['C02'] = dict(
-    technique='DFCC-enforced function contracts (requires/ensures/assigns, callee contracts replacing callee bodies) on the loop-free rotation/flip helpers; closed-tree contracts with the LLRB representation invariant as pre- and postcondition (search order, black root, no red-red, equal black height, no lone right red), checker-vs-invariant equivalence on ALL coloured trees, comparison-count bound via a ghost counter',
-    text='After every put/remove/get (incl. removal of an absent key, replacement, allocation failure) on every tree of height <= 3 the real tree satisfies the full LLRB 2-3-4 invariant; qtreetbl_check() == 0 is shown equivalent to the red-black part of the invariant for EVERY coloured tree of height <= 3 (valid or not); a lookup is shown to call the comparator at most 2*bh times with 2^bh <= n+1.',
+    technique='window induction for put_obj (UNBOUNDED in tree size: LLRB 2-3-4 validity, equal black height and key range as postcondition by kind of argument, recursive call = induction hypothesis); DFCC-enforced function contracts (requires/ensures/assigns, callee contracts replacing callee bodies) on the loop-free rotation/flip helpers; closed-tree contracts with the LLRB representation invariant as pre- and postcondition (search order, black root, no red-red, equal black height, no lone right red), checker-vs-invariant equivalence on ALL coloured trees, comparison-count bound via a ghost counter',
+    text='PROOF: after putobj on a valid tree of ANY size (successful, replacing, or failing on allocation after 4-nodes were already split) the tree is a valid LLRB 2-3-4 tree with a black root and unchanged or +1 black height. BOUNDED: After every put/remove/get (incl. removal of an absent key, replacement, allocation failure) on every tree of height <= 3 the real tree satisfies the full LLRB 2-3-4 invariant; qtreetbl_check() == 0 is shown equivalent to the red-black part of the invariant for EVERY coloured tree of height <= 3 (valid or not); a lookup is shown to call the comparator at most 2*bh times with 2^bh <= n+1.',
     design_ref='DESIGN.md section 3 C02',
-    note='Bounded stand-in in tree height (<= 3). The inductive lemmas cnt >= 2^bh - 1 / height <= 2*bh are checked on the enumerated trees, not for arbitrary height.',
+    note='put: unbounded window induction; remove and the lookups: bounded stand-in in tree height (<= 3). The inductive lemmas cnt >= 2^bh - 1 / height <= 2*bh are checked on the enumerated trees, not for arbitrary height.',
     trusted_base=TREE_TRUST,
     unchecked=['trees higher than 3'],
 )
